@@ -4,6 +4,8 @@ package sx
 
 import (
 	"go/types"
+
+	"golang.org/x/tools/go/ssa"
 )
 
 var anyType = types.NewInterfaceType(nil, nil)
@@ -116,4 +118,53 @@ func init() {
 	}
 	symExternals["encoding/json.Marshal"] = marshal
 	symExternals["encoding/json.MarshalIndent"] = marshal
+}
+
+// sync.Pool: a LIFO free list per pool (the most adversarial reuse policy: the object just put is
+// handed out next), falling back to New.
+func (i *interpreter) pool(recv value) *[]value {
+	if i.pools == nil {
+		i.pools = map[*value]*[]value{}
+	}
+	key := recv.(*value)
+	p := i.pools[key]
+	if p == nil {
+		p = &[]value{}
+		i.pools[key] = p
+	}
+	return p
+}
+
+func init() {
+	symExternals["(*sync.Pool).Put"] = func(fr *frame, args []value) value {
+		p := fr.i.pool(args[0])
+		*p = append(*p, args[1])
+		return nil
+	}
+	symExternals["(*sync.Pool).Get"] = func(fr *frame, args []value) value {
+		p := fr.i.pool(args[0])
+		if n := len(*p); n > 0 {
+			v := (*p)[n-1]
+			*p = (*p)[:n-1]
+			return v
+		}
+		// field New func() any
+		st := (*args[0].(*value)).(structure)
+		pt := fr.i.prog.ImportedPackage("sync").Type("Pool").Type().Underlying().(*types.Struct)
+		for k := 0; k < pt.NumFields(); k++ {
+			if pt.Field(k).Name() == "New" {
+				if st[k] == nil {
+					return iface{}
+				}
+				if c, ok := st[k].(*closure); ok && c == nil {
+					return iface{}
+				}
+				if f, ok := st[k].(*ssa.Function); ok && f == nil {
+					return iface{}
+				}
+				return call(fr.i, fr, 0, st[k], nil)
+			}
+		}
+		return iface{}
+	}
 }
